@@ -73,6 +73,7 @@ type c04Conc struct {
 	Wire  bool      `json:"wire,omitempty"`  // real http.Transport + loopback backends (accept, read, drop)
 	Flush bool      `json:"flush,omitempty"` // FlushInterval 1ms (maxLatencyWriter in front of the client) instead of 0
 	Block string    `json:"block,omitempty"` // further lines of the proxy block (C05: fail_timeout / max_fails)
+	TryD  string    `json:"tryd,omitempty"`  // try_duration (default 120s: far beyond any schedule)
 	Reqs  []c04CReq `json:"reqs"`
 }
 
@@ -412,7 +413,11 @@ func c04ConcRun(in *c04Conc) c04ConcOut {
 		servers = append(servers, srv)
 		targets = append(targets, srv.URL)
 	}
-	text := "proxy / " + strings.Join(targets, " ") + " {\n  policy round_robin\n  try_duration 120s\n  try_interval 1ms\n" + in.Block + "}\n"
+	tryD := in.TryD
+	if tryD == "" {
+		tryD = "120s"
+	}
+	text := "proxy / " + strings.Join(targets, " ") + " {\n  policy round_robin\n  try_duration " + tryD + "\n  try_interval 1ms\n" + in.Block + "}\n"
 	ups, err := c04Upstreams(text)
 	if err != nil || len(ups) != 1 {
 		out.Setup = fmt.Sprint("setup error: ", err)
